@@ -53,6 +53,7 @@ func TestVerif_C10(t *testing.T) {
 		c.Rule("EV, server part: for each part (configured stream window 8 or default x seed prefix) every event sequence of depth 1..D after the seed over {H(content-length none|4|10) (<=2 POST streams), DATA(stream, len, padding, END_STREAM) inside the client's view of both windows (also on finished/reset/ignored streams), handler Read(n), Body.Close, handler return, handler panic, client RST_STREAM, client trailers, a connection error provoking GOAWAY, graceful GOAWAY}, pruned by a predictive model and decided on the real state at run time; each sequence runs on a fresh real http2.Server in its own synctest bubble; after every event at quiescence: white-box sc.inflow.avail+unsent+sum(unread buffered) == configured connection window, the same per open stream, advertised window == wire view, every WINDOW_UPDATE keeps the client's view <= configured and <= 2^31-1, and with no open streams the client's view is within inflowMinRefresh of the configured window. non-trivial = at least one DATA frame was sent")
 		c.Assume("credit below inflowMinRefresh (4096) that the implementation deliberately batches in inflow.unsent counts as returned (it is sent with the next refresh); a one-byte leak still breaks the white-box equation")
 		c.Assume("DATA beyond the advertised windows is C11's domain and is not sent in C10 cases")
+		c.Assume("server part: when DATA with payload and END_STREAM arrives after the handler closed the request body the server drops that frame's END_STREAM flag (processData returns early); client and server then disagree about the stream state, so no further DATA is sent on such a stream")
 		c.Assume("interleavings are explored at event granularity (L2)")
 		c.Rule("states = explored event histories (stateless search), transitions = events applied to the real endpoint and checked at quiescence, traces = histories executed to their end")
 		c08Determinism(c, func(w *vx.W, t testing.TB) ([]string, string) {
